@@ -147,7 +147,25 @@ def replay_batch_order(ids):
             sub = bl2.construct_dask().compute()
             means = [float(s.mean()) for s in sub]
             img_of_task = [int(round(m / 10.0)) - 1 for m in means]
-            return img_of_task != got_ids, {"molecule_image_ids": got_ids, "image_actually_loaded_for_task_k": img_of_task}
+            # the re-ordered batch merged into a new one: row i still comes from the tomogram molecule i was registered with
+            # (position z of a molecule = 5 + its original image id, so the pairing is observable after image ids are renumbered)
+            bz = BatchLoader(order=0, scale=1.0, output_shape=(3, 3, 3))
+            for k in sorted(imgs):
+                n = ids.count(k)
+                bz.add_tomogram(imgs[k], Molecules(np.column_stack([np.full(n, 5.0 + k), np.full(n, 6.0), np.full(n, 6.0)])), image_id=k)
+            bz2 = bz.replace(molecules=bz.molecules.subset(order))
+            merged_bad = {}
+            for name, mk in (("add_loader", lambda: BatchLoader(order=0, scale=1.0, output_shape=(3, 3, 3)).add_loader(bz2)),
+                             ("from_loaders", lambda: BatchLoader.from_loaders([bz2], order=0, scale=1.0, output_shape=(3, 3, 3)))):
+                try:
+                    bm = mk()
+                    want = [int(round(float(z))) - 5 for z in bm.molecules.pos[:, 0]]
+                    gotm = [int(round(float(s.mean()) / 10.0)) - 1 for s in bm.construct_dask().compute()]
+                    if want != gotm or len(want) != len(ids):
+                        merged_bad[name] = {"tomogram_registered_for_row": want, "tomogram_loaded_for_row": gotm}
+                except Exception as e:
+                    merged_bad[name] = repr(e)[:200]
+            return img_of_task != got_ids or bool(merged_bad), {"molecule_image_ids": got_ids, "image_actually_loaded_for_task_k": img_of_task, "merged": merged_bad}
 
     return run
 
@@ -296,7 +314,7 @@ def sec_batch(rec, ids=(0, 1, 0, 1), patches=None):
     ids = list(ids)
     n = len(ids)
     tags = [f"m{i}" for i in range(n)]
-    hyps = _hyps(tags)
+    hyps = _hyps(tags + ["x0"])
     roots = {k: f"tomo{k}" for k in sorted(set(ids))}
     rp = replay_batch_order(ids)
     tag = f"batch[ids={ids}]"
@@ -313,14 +331,22 @@ def sec_batch(rec, ids=(0, 1, 0, 1), patches=None):
             bl2 = bl.replace(molecules=bl.molecules.subset(order))
             subs = {k: bl2.loaders[k] for k in sorted(roots)}
             it = [sub for sub in bl2.loaders]
-            return bl, bl2, reg, _collect(bl2, xp), subs, it
+            # merging the re-ordered batch into other batches keeps every molecule on its tomogram
+            bm = BT.BatchLoader(order=1, scale=1, output_shape=SHAPE).add_loader(bl2)
+            bf = BT.BatchLoader.from_loaders([_single_loader(L, xp, ["x0"], image=stubs.ImgStub((200, 200, 200), root="tomoX")), bl2], order=1, scale=1, output_shape=SHAPE)
+            merged = [(bm.molecules.features["row"].to_list(), _collect(bm, xp)), (bf.molecules.features["row"].to_list(), _collect(bf, xp))]
+            return bl, bl2, reg, _collect(bl2, xp), subs, it, merged
 
         for pth in explore(run, assumptions=hyps, max_paths=20):
             if not pth.ok:
                 ok, det = rp({})
                 rec.fact(f"{tag}/runs", False, key="C03/batch/raises", detail={"exc": repr(pth.exc)[:300], **det}, reproduced=ok)
                 continue
-            bl, bl2, reg, col, subs, it = pth.result
+            bl, bl2, reg, col, subs, it, merged = pth.result
+            root_of = dict(zip(tags, [roots[i] for i in ids]), x0="tomoX")
+            for name, (mrows, mcol) in zip(("add_loader(batch)", "from_loaders([single, batch])"), merged):
+                rec.fact(f"{tag}/{name}/all-molecules-kept", sorted(mrows) == sorted(tags + (["x0"] if "from_loaders" in name else [])), key="C03/batch/merge-rows", detail={"rows": mrows})
+                _check_tasks(rec, f"{tag}/{name}", mcol, hyps, pth.condition(), mrows, [root_of.get(t) for t in mrows], "C03/batch/merge", replay=rp)
             rows = bl2.molecules.features["row"].to_list()
             got_ids = bl2.molecules.features["image-id"].to_list()
             rec.fact(f"{tag}/table-order", rows == tags and got_ids == ids, key="C03/batch/table", detail={"rows": rows, "ids": got_ids})
